@@ -442,6 +442,11 @@ def k3(run, sm, frag, fspan):
                     return bool(rets) and all(cap_scaled(r) for r in rets)
             return False
         if e[0] == "phi":
+            # a vector filled by a `for` loop: `for f in fragments { v.push(f.scale(settings.scale)) }`
+            lb = loop_built_vec(prog, path, e)
+            if lb:
+                el = strip(lb[1])
+                return el[0] == "call" and el[1] in scale_fns and len(el[2]) == 2 and strip(el[2][0]) == ELEM and is_settings_scale_expr(prog, path, el[2][1])
             return all(scaled_expr(path, x, depth) for x in e[1] if x[0] != "mutated_by") and any(x[0] != "mutated_by" for x in e[1])
         return False
 
